@@ -6,7 +6,8 @@
    RowSem(sheet) and the implementation's output (translation validation). *)
 From Coq Require Import List NArith Bool.
 From RPFT Require Import Base.Sexp Base.SexpEq Base.Result Gen.Tables Flow.Lts Flow.Flow Flow.FlowFacts Flow.RowSem
-     Comp.Compile Comp.CompileExamples Comp.CompileExampleFacts Comp.Refine Comp.RefineStep Comp.RefineFinal Comp.RefineFrag Comp.RefineExamples.
+     Comp.Compile Comp.CompileExamples Comp.CompileExampleFacts Comp.Refine Comp.RefineStep Comp.RefineFinal Comp.RefineFrag Comp.RefineExamples
+     Comp.RefineRefuted.
 Import ListNotations.
 
 (* the checker is sound for any label-matching relation (used with wildcard matching on
@@ -38,23 +39,43 @@ Print Assumptions C02_checker_nonvacuous.
    The fragment (Comp/RefineStep.v: row_ok, decided by Comp/Refine.v: fragb): action rows, wait_for_response,
    split_by_value, split_by_group, start_new_flow, call_webhook, transfer_airtime, go_to, no_op (forwarding and
    decision), hard_exit, loose_exit, begin_block/end_block (nested); conditional edges from action rows (implicit
-   routers and waits), re-targeting, anonymous rows, blank `from`; the first row is a node row.
+   routers and waits), re-targeting, anonymous rows, blank `from`; NAMED categories (condition_name: two tests that
+   name the same category share it, the edge written last says where it leads); the first row is a node row.
    `reads_same`: the code of this run reads the padding entries of the row (blank edges.N.* cells of a rectangular
    sheet) as the reference does, i.e. not as edges; part of edge_ok: it compiles a has_group test of the edge as
    the reference reads it, [_, group name] (both decided below by the probed constants of Gen/Tables.v).
-   NOT in the fragment (what is missing for the full statement compile_refines_rowsem): named categories on edges
-   (condition_name), split_random rows, node names / given `_nodeId`s (merged rows).  For those the statement is
-   decided per sheet by the verified checker (translation validation, C02_sim_check_sound). *)
-Theorem C02_compile_refines_rowsem_partial : forall fresh,
+   G : GenNames is any set of names that holds "Other" and, for every unnamed condition of the sheet, the names
+   generate_category_name may invent for it (edge_ok); an EXPLICIT name must lie outside G and differ from
+   "No Response": the statement without that premise is FALSE of the faithful model (C02_clash_*_refuted below,
+   the findings category-name-clash).  `sheet_names rows` (Comp/RefineFrag.v) is the least such G of a sheet.
+   NOT in the fragment (what is missing for the full statement compile_refines_rowsem): split_random rows, node
+   names / given `_nodeId`s (merged rows), explicit names that clash.  For those the statement is decided per sheet
+   by the verified checker (translation validation, C02_sim_check_sound). *)
+Theorem C02_compile_refines_rowsem_partial : forall (G : GenNames) fresh,
   (forall a b : nat, fresh a = fresh b -> a = b) -> (forall k, fresh k <> hard_exit_sentinel) ->
   forall validate name rows f ref,
   (forall us, validate us = None -> NoDup us) ->
-  Forall row_ok rows -> Forall reads_same rows -> no_given rows -> starts_with_node rows ->
+  Forall (@row_ok G) rows -> Forall reads_same rows -> no_given rows -> starts_with_node rows ->
   compile_with fresh validate name rows = Ok f -> rowsem nab (map cr_row rows) = Some ref ->
   (forall t, traces ref t -> exists t', traces f t' /\ Forall2 (ematch sexp smatch) t t')
   /\ (forall t, traces f t -> exists t', traces ref t' /\ Forall2 (ematch sexp (fun a b => smatch b a)) t t').
-Proof. exact compile_refines_rowsem_partial. Qed.
+Proof. exact @compile_refines_rowsem_partial. Qed.
 Print Assumptions C02_compile_refines_rowsem_partial.
+
+(* the premise on explicit category names cannot be dropped: SwitchRouter.get_or_create_category looks an explicit
+   name up among ALL categories of the router.  Three sheets (a wait_for_response row and two message rows each) that
+   compile and have a meaning, with an input/outcome sequence of the reference flow that NO trace of the compiled flow
+   matches: a category named like the name invented for an earlier test ("yes" -> "Yes"), like the default category
+   ("Other"), like the No Response category.  Replayed on the implementation: findings.d/C02.json. *)
+Theorem C02_clash_generated_name_refuted : not_refined ex_clash_gen.
+Proof. exact clash_generated_name_refuted. Qed.
+Print Assumptions C02_clash_generated_name_refuted.
+Theorem C02_clash_default_name_refuted : not_refined ex_clash_other.
+Proof. exact clash_default_name_refuted. Qed.
+Print Assumptions C02_clash_default_name_refuted.
+Theorem C02_clash_no_response_name_refuted : not_refined ex_clash_noresp.
+Proof. exact clash_no_response_name_refuted. Qed.
+Print Assumptions C02_clash_no_response_name_refuted.
 
 (* decided for the code of this run: where does it read rows as the reference does?  With the repairs a05766f and
    f02a865 (and the has_group repair of NoOpNodeGroup.add_exit, a candidate patch) everywhere; before them only
@@ -70,7 +91,7 @@ Print Assumptions C02_reading_agrees_decided.
 
 (* the boolean test the harness evaluates on every generated sheet is sound for the hypotheses above *)
 Theorem C02_fragb_sound : forall rows,
-  fragb rows = true -> Forall row_ok rows /\ Forall reads_same rows /\ no_given rows /\ starts_with_node rows.
+  fragb rows = true -> Forall (@row_ok (sheet_names rows)) rows /\ Forall reads_same rows /\ no_given rows /\ starts_with_node rows.
 Proof. exact fragb_sound. Qed.
 Print Assumptions C02_fragb_sound.
 
@@ -84,9 +105,13 @@ Proof. exact compile_refines_rowsem_std. Qed.
 Print Assumptions C02_compile_refines_rowsem_std.
 
 (* non-vacuity: directed sheets of the harness lie in the fragment, compile (compiled nodes) and have a reference
-   meaning (reference nodes): an action row with conditional edges (implicit router: 6 vs 5 nodes), a go_to cycle,
+   meaning (reference nodes): a wait_for_response row with a timeout and two tests sharing a named category, an action
+   row with conditional edges (implicit router: 6 vs 5 nodes), a go_to cycle,
    no_op forwarding and a no_op decision, nested blocks with a hard exit, enter-flow / webhook / airtime outcomes,
    hard and loose exits *)
+Example C02_refines_named_nonvacuous : refines_ex ex_router 6 6.
+Proof. exact refines_ex_router. Qed.
+Print Assumptions C02_refines_named_nonvacuous.
 Example C02_refines_implicit_nonvacuous : refines_ex ex_implicit 6 5.
 Proof. exact refines_ex_implicit. Qed.
 Print Assumptions C02_refines_implicit_nonvacuous.
